@@ -17,6 +17,11 @@ import (
 	"testing"
 	"time"
 
+	hclog "github.com/hashicorp/go-hclog"
+	"github.com/openbao/openbao/sdk/v2/helper/logging"
+	"github.com/openbao/openbao/sdk/v2/physical"
+	"github.com/openbao/openbao/sdk/v2/physical/inmem"
+
 	"github.com/openbao/openbao/sdk/v2/logical"
 	"github.com/openbao/openbao/v2/internal/helper/namespace"
 	"github.com/openbao/openbao/v2/internal/zzverif/vh"
@@ -126,9 +131,125 @@ func c10hCase(t *testing.T, out *vh.Out, what string) {
 	out.Op(res, "hatakeover", what)
 }
 
+// c10hStaleCeremony (finding F111): a root-key rotation waiting for its verification is pending on the active node A when A
+// steps down; B takes over and completes ANOTHER rotation (the unseal shares are K2 now); B steps down, A is active again.
+// "…readable again after unsealing with a currently valid unseal key": the abandoned ceremony must be gone — its shares
+// (K1) must not be able to replace K2 without one share of K2 having been supplied. Op line:
+//   hastale => ceremony:<dropped|held>|verify:<refused|completed>|k2:<unseals|fails>
+func c10hStaleCeremony(t *testing.T, out *vh.Out) {
+	old := manualStepDownSleepPeriod
+	manualStepDownSleepPeriod = 2 * time.Second
+	defer func() { manualStepDownSleepPeriod = old }()
+	logger := logging.NewVaultLogger(hclog.Error)
+	inm, err := inmem.NewInmemHA(nil, logger)
+	if err != nil {
+		t.Fatal(err)
+	}
+	inmha, err := inmem.NewInmemHA(nil, logger)
+	if err != nil {
+		t.Fatal(err)
+	}
+	mk := func(addr string) *Core {
+		c, err := NewCore(&CoreConfig{Physical: inm, HAPhysical: inmha.(physical.HABackend), RedirectAddr: addr})
+		if err != nil {
+			t.Fatal(err)
+		}
+		return c
+	}
+	a := mk("http://127.0.0.1:8200")
+	defer a.Shutdown() //nolint:errcheck
+	keys, root := TestCoreInit(t, a)
+	for _, k := range keys {
+		if _, err := TestCoreUnseal(a, TestKeyCopy(k)); err != nil {
+			t.Fatal(err)
+		}
+	}
+	TestWaitActive(t, a)
+	b := mk("http://127.0.0.1:8500")
+	defer b.Shutdown() //nolint:errcheck
+	for _, k := range keys {
+		if _, err := TestCoreUnseal(b, TestKeyCopy(k)); err != nil {
+			t.Fatal(err)
+		}
+	}
+	ns := namespace.RootNamespace
+	ctx := namespace.RootContext(context.Background())
+	sealType := a.seal.BarrierType().String()
+	stepDown := func(c *Core) {
+		if err := c.StepDown(ctx, &logical.Request{ClientToken: root, Path: "sys/step-down", ID: "c10h-stepdown"}); err != nil {
+			t.Fatalf("step-down: %v", err)
+		}
+	}
+	waitActive := func(c *Core) {
+		for dl := time.Now().Add(40 * time.Second); time.Now().Before(dl); time.Sleep(50 * time.Millisecond) {
+			if !c.Sealed() && !c.Standby() {
+				TestWaitActive(t, c)
+				return
+			}
+		}
+		t.Fatal("core did not become active")
+	}
+	rotate := func(c *Core, verify bool) *RekeyResult {
+		if _, err := c.sealManager.InitRotation(ctx, ns, &SealConfig{Type: sealType, SecretShares: 3, SecretThreshold: 2, VerificationRequired: verify}, false); err != nil {
+			t.Fatalf("init rotation: %v", err)
+		}
+		rc := c.sealManager.RotationConfig(ns.UUID, false)
+		for _, k := range keys {
+			res, err := c.sealManager.UpdateRotation(ctx, ns, TestKeyCopy(k), rc.Nonce, false)
+			if err != nil {
+				t.Fatalf("update rotation: %v", err)
+			}
+			if res != nil {
+				return res
+			}
+		}
+		t.Fatal("rotation did not reach its threshold")
+		return nil
+	}
+	res1 := rotate(a, true) // K1, waiting for verification on A
+	stepDown(a)
+	waitActive(b)
+	out.Reset()
+	ceremony := "dropped"
+	if a.sealManager.RotationConfig(ns.UUID, false) != nil {
+		ceremony = "held"
+	}
+	res2 := rotate(b, false) // K2: the unseal shares now
+	stepDown(b)
+	waitActive(a)
+	verify := "refused"
+	for i := 0; i < 2; i++ {
+		done, err := a.sealManager.VerifyRotation(ctx, ns, TestKeyCopy(res1.SecretShares[i]), res1.VerificationNonce, false)
+		if err != nil {
+			break
+		}
+		if done != nil && done.Complete {
+			verify = "completed"
+		}
+	}
+	k2 := "fails"
+	if err := b.Seal(root); err != nil {
+		t.Fatalf("seal of the standby: %v", err)
+	}
+	for i := 0; i < 2; i++ {
+		if _, err := TestCoreUnseal(b, TestKeyCopy(res2.SecretShares[i])); err != nil {
+			break
+		}
+	}
+	if !b.Sealed() {
+		k2 = "unseals"
+	}
+	res := "ceremony:" + ceremony + "|verify:" + verify + "|k2:" + k2
+	if verify == "completed" || k2 != "unseals" {
+		res += "!VIOL:a rotation ceremony abandoned when its node stepped down was completed after the node became active again, replacing the unseal shares of a ceremony completed in between: " + res + "#stale-rotation-ceremony-after-stepdown"
+	}
+	out.Op(res, "hastale")
+}
+
 func TestVerifC10HA(t *testing.T) {
 	out := vh.Open()
 	defer out.Close()
+	c10hStaleCeremony(t, out)
 	whats := []string{"ns-rotroot", "none"}
 	if vh.Thorough() {
 		whats = []string{"ns-rotroot", "none", "ns-rotate", "root-rotate"}
